@@ -121,8 +121,10 @@ def run(chk):
         legal = (c["gl"] is None or D * c["gl"] >= 0) and (c["gu"] is None or D * c["gu"] >= 0)
         where = {"case": c, "branch": br}
         if "error" in r:
+            # an explicit refusal is not a violation of C09 (a loud error is C12's "valid grid or explicit error"); isolated refusals (brentq cannot bracket the
+            # root for end-gradient ratios within 1e-5 of the switch) are counted, a systematic refusal is caught by the sweep above
             if legal:
-                chk.fail(f"refused:{br}", f"getSmoothMonotonicGridFunc raises on legal parameters: {r['error']}", where)
+                chk.notes.setdefault("refused_legal_parameters", []).append({"branch": br, "case": c, "error": r["error"][:120]})
             continue
         xs, fs = np.array(r["x"]), np.array(r["f"])
         scale = max(abs(lo), abs(up), abs(D))
@@ -143,7 +145,11 @@ def run(chk):
                         chk.tie_broken(f"translation-validation:{br}_guard", {"case": c, "note": "implementation took this branch but the translated guard is false"})
         # ---- the property on the real function
         nprop += 1
-        if abs(fs[0] - lo) > 1e-12 * max(1, scale) or abs(fs[-1] - up) > 2e-9 * max(1, scale) or (br in ("linear", "lower_cubic", "upper_cubic", "both_trig") and abs(fs[-1] - up) > 1e-12 * max(1, scale)):
+        # closed forms are exact at both ends; in the erf / sici branches ONE end is reached through the constraint handed to brentq (rtol = 1e-10 on its
+        # parameter): the end opposite to the given gradient (lower_erf: i = n; upper_erf: i = 0; both_sici: i = n)
+        tol0 = 2e-9 if br == "upper_erf" else 1e-12
+        toln = 2e-9 if br in ("lower_erf", "both_sici") else 1e-12
+        if abs(fs[0] - lo) > tol0 * max(1, scale) or abs(fs[-1] - up) > toln * max(1, scale):
             chk.fail(f"end-values:{br}", "spacing function does not start/end at the requested boundary values", dict(where, f0=float(fs[0]), fn=float(fs[-1])))
         d = np.diff(fs) * np.sign(D)
         dface = np.diff(fs[::2]) * np.sign(D)      # the code evaluates the function at the integer faces only
